@@ -115,16 +115,6 @@ example : checkWitness exDeepNoRS [sg 0xA1 scCustomGroups [] [0x61]] 0xA1 = .err
 
 /-! ### Corollaries, clause by clause -/
 
-theorem scanSigners_none (e : Env) (h : Hash) (ss : List Signer) (hns : ∀ s ∈ ss, s.account ≠ h) :
-    scanSigners e h ss = .ok false := by
-  induction ss with
-  | nil => rfl
-  | cons c cs ih =>
-    have hc : c.account ≠ h := hns c (by simp)
-    simp only [scanSigners]
-    rw [if_neg (by simpa using hc)]
-    exact ih (fun s hs => hns s (by simp [hs]))
-
 /-- An account that did not sign never passes (unless it is the calling contract): the check returns
 `false`, or faults when there is no signer at all. -/
 theorem non_signer_never (e : Env) (signers : List Signer) (h : Hash)
@@ -151,16 +141,6 @@ theorem caller_always (e : Env) (signers : List Signer) (hc : e.calling ≠ 0) :
   simp [hc]
 
 example : checkWitness exDeep [] 0xC2 = .ok true := caller_always exDeep [] (by decide)
-
-theorem scanSigners_decides (e : Env) (h : Hash) (s : Signer) :
-    ∀ (ss : List Signer), decides ss h s → scanSigners e h ss = checkSigner e s
-  | [], hd => absurd hd (decides_nil h s)
-  | c :: cs, hd => by
-      simp only [scanSigners]
-      by_cases hc : c.account = h
-      · rw [(decides_cons_eq hc s).mp hd]; simp [hc]
-      · rw [if_neg (by simpa using hc)]
-        exact scanSigners_decides e h s cs ((decides_cons_ne hc s).mp hd)
 
 /-- The first signer with the account decides: the rest of the list is never consulted. -/
 theorem first_signer_decides (e : Env) (signers : List Signer) (h : Hash) (s : Signer)
@@ -260,30 +240,6 @@ theorem custom_groups_exact (e : Env) (signers : List Signer) (h : Hash) (s : Si
 example : checkWitness exDeep [sg 0xA1 scCustomGroups [] [0x62, 0x61]] 0xA1 = .ok true :=
   ((custom_groups_exact exDeep _ 0xA1 (sg 0xA1 scCustomGroups [] [0x62, 0x61]) ⟨[], [], rfl, by simp, rfl⟩ rfl
     (by decide)).1 rfl).1.mpr ⟨0x61, by simp [sg], [0x61], by decide, by simp⟩
-
-theorem firstMatch_unique {e : Env} {rules : List Rule} {r r' : Rule}
-    (h1 : firstMatch e rules r) (h2 : firstMatch e rules r') : r = r' := by
-  induction rules with
-  | nil => obtain ⟨pre, post, heq, _⟩ := h1; simp at heq
-  | cons x xs ih =>
-    obtain ⟨pre, post, heq, hpre, hh⟩ := h1
-    obtain ⟨pre', post', heq', hpre', hh'⟩ := h2
-    cases pre with
-    | nil =>
-      cases pre' with
-      | nil => simp at heq heq'; rw [← heq.1, ← heq'.1]
-      | cons p ps =>
-        simp at heq heq'
-        exact absurd (heq.1 ▸ hh) (heq'.1 ▸ hpre' p (by simp))
-    | cons p ps =>
-      cases pre' with
-      | nil =>
-        simp at heq heq'
-        exact absurd (heq'.1 ▸ hh') (heq.1 ▸ hpre p (by simp))
-      | cons p' ps' =>
-        simp at heq heq'
-        exact ih ⟨ps, post, heq.2, fun y hy => hpre y (by simp [hy]), hh⟩
-          ⟨ps', post', heq'.2, fun y hy => hpre' y (by simp [hy]), hh'⟩
 
 /-- Rules scope alone: the first rule whose condition holds decides (Allow passes, Deny refuses, whatever
 follows); when no rule matches the check refuses. -/
@@ -393,11 +349,11 @@ example : decodeBinaryCondition (fun _ => none) [0x02, 0x00] = none := by rfl
 /-- The decoders of tree-shaped input (stack items: `WitnessRule.FromStackItem`; JSON:
 `UnmarshalConditionJSON`) accept exactly the trees within the permitted nesting and width. -/
 theorem tree_decoders_exact (c : Cond) :
-    admit c maxConditionNesting = true ↔ (c.depth ≤ maxConditionNesting ∧ c.widthOk = true) :=
-  admit_iff c maxConditionNesting
+    admits c maxConditionNesting = true ↔ (c.depth ≤ maxConditionNesting ∧ c.widthOk = true) :=
+  admits_iff c maxConditionNesting
 
-example : admit (.and [.not (.boolean true)]) maxConditionNesting = true := by decide
-example : admit (.and [.not (.not (.boolean true))]) maxConditionNesting = false := by decide
+example : admits (.and [.not (.boolean true)]) maxConditionNesting = true := by decide
+example : admits (.and [.not (.not (.boolean true))]) maxConditionNesting = false := by decide
 
 /-! ### Group lookups need ReadStates -/
 
